@@ -81,7 +81,7 @@ deriving DecidableEq, Repr
 inductive Worker
   | imp (files : List Nat)
   | read (sel : List Key)
-  | calc (k : Kind) (series : List Key) (twin filt : Nat) (minima : Bool)
+  | job (k : Kind) (series : List Key) (twin filt : Nat) (minima : Bool)
   | readG (sel : List Key)
   | calcG (series : List Key) (twin filt : Nat)
 deriving DecidableEq, Repr
@@ -249,19 +249,19 @@ def finish (cat : Nat → Option (List Nat)) (s : State) (w : Worker) : State :=
   | .read sel =>
     let series := sel.filter (fun k => s.db.contains k)
     { s with status := s.db.length,
-             pending := s.pending ++ [.calc .trace series s.ui.twin s.ui.filt false,
-                                      .calc .stats series s.ui.twin s.ui.filt s.ui.minima,
-                                      .calc .psd series s.ui.twin s.ui.filt false,
-                                      .calc .rfc series s.ui.twin s.ui.filt false] }
-  | .calc .trace series tw fl _ =>
+             pending := s.pending ++ [.job .trace series s.ui.twin s.ui.filt false,
+                                      .job .stats series s.ui.twin s.ui.filt s.ui.minima,
+                                      .job .psd series s.ui.twin s.ui.filt false,
+                                      .job .rfc series s.ui.twin s.ui.filt false] }
+  | .job .trace series tw fl _ =>
     { s with trace := mkShown series tw fl (markerMode s.ui), status := s.db.length }
-  | .calc .stats series tw fl mn =>
+  | .job .stats series tw fl mn =>
     { s with table := tabulate (statRows series tw fl mn) s.table,
              weibull := mkShown series tw fl (minimaMode mn),
              status := if series.isEmpty then s.status else s.db.length }
-  | .calc .psd series tw fl _ =>
+  | .job .psd series tw fl _ =>
     { s with spectrum := mkShown series tw fl 0, status := s.db.length }
-  | .calc .rfc series tw fl _ =>
+  | .job .rfc series tw fl _ =>
     { s with cycles := mkShown series tw fl 0, status := s.db.length }
   | .readG sel =>
     let series := sel.filter (fun k => s.db.contains k)
@@ -344,7 +344,7 @@ def isUser : Event → Bool
 /-- Workers of a display request. -/
 def isDisp : Worker → Bool
   | .read _ => true
-  | .calc .. => true
+  | .job .. => true
   | _ => false
 
 /-- A display request is being processed. -/
